@@ -5,7 +5,7 @@ use crate::engine::Failure;
 use crate::props::asan::AsanEngine;
 use crate::props::bfs::BfsEngine;
 use crate::props::cycles::CyclesEngine;
-use crate::props::digraph::DiEngine;
+use crate::props::digraph::{DiEngine, LengthSweep};
 use crate::props::gc::GcEngine;
 use crate::props::multi::MultiEngine;
 use crate::props::prefixes::PrefixEngine;
@@ -88,9 +88,9 @@ pub fn meta(prop: &str) -> Option<Meta> {
         },
         "C08" => Meta {
             level: "exploration",
-            rule: "history H (<=60 generated calls, all profiles, every N, capacities 2..256) builds g; g' = load(save(g)) through a real file; (i) the complete observation (keys, len, kids in order, v_print, inspect of every vertex, Debug, to_xml, to_dot) of g and g' must be equal; (ii) a generated continuation (<=40 calls; allocator-dependent calls only when H never used the allocator, so that the one permitted difference cannot show) plus the drain epilogue is applied to both and every result, key set and observation must stay equal; (iii) hook snapshots are compared (modulo allocator position, absent slots) only as a recorded trigger. Non-trivial: at save time a live group holds an unread datum, a heap-encoded datum (>8 bytes) exists, and the continuation/epilogue collects a group.",
+            rule: "history H (<=60 generated calls, all profiles, every N, capacities 2..256) builds g; g' = load(save(g)) through a real file; (i) the complete observation (keys, len, kids in order, v_print, inspect of every vertex, Debug, to_xml, to_dot) of g and g' must be equal; (ii) a generated continuation (<=40 calls; allocator-dependent calls only when H never used the allocator, so that the one permitted difference cannot show) plus the drain epilogue is applied to both and every result, key set and observation must stay equal; (iii) hook snapshots are compared (modulo allocator position, absent slots) only as a recorded trigger. Sub-campaign datum-length-sweep (bounded-exhaustive): a two-vertex graph whose datum has EVERY length 0..=9000 (thorough: 0..=40000) and every length within ±24 of 64 KiB, 128 KiB, 256 KiB and 1 MiB is saved, reloaded and compared (complete observation, datum bytes). Non-trivial: at save time a live group holds an unread datum, a heap-encoded datum (>8 bytes) exists, and the continuation/epilogue collects a group.",
             assumptions: &["differential: the implementation is compared with itself across save+load", "the generator is guided by the reference model so that calls stay inside preconditions and limits"],
-            subs: vec![Sub { id: "twin", quick: 32_000, thorough: 1_600_000 }],
+            subs: vec![Sub { id: "twin", quick: 32_000, thorough: 1_600_000 }, Sub { id: "datum-length-sweep", quick: 8, thorough: 16 }],
         },
         "C09" => Meta {
             level: "fault_enumeration",
@@ -148,9 +148,9 @@ pub fn meta(prop: &str) -> Option<Meta> {
         },
         "C18" => Meta {
             level: "exploration",
-            rule: "graphs as C13 (digraph builder and histories with collections, never-added slots, dangling edges, data of all lengths incl. empty, labels that need no escaping, capacities 2..256). Oracle: to_xml() parsed with sxd-document and to_dot() parsed with a line grammar of the fixed format: node list = keys() in ascending order (none for absent ids); per node the edge set (label, target) = the model's edges; data = the model's bytes for exactly the vertices that have data. Metamorphic: for graphs without dangling edges a second graph with the same present vertices, edges and data is built differently (other capacity, reversed add/bind/label order, junk created and collected first, other read status) and must print byte-identical XML and DOT. Non-trivial: an absent id below the largest present id, a vertex with >=2 edges, and a datum.",
+            rule: "graphs as C13 (digraph builder and histories with collections, never-added slots, dangling edges, data of all lengths incl. empty, labels that need no escaping, capacities 2..256). Oracle: to_xml() parsed with sxd-document and to_dot() parsed with a line grammar of the fixed format: node list = keys() in ascending order (none for absent ids); per node the edge set (label, target) = the model's edges; data = the model's bytes for exactly the vertices that have data. Metamorphic: for graphs without dangling edges a second graph with the same present vertices, edges and data is built differently (other capacity, reversed add/bind/label order, junk created and collected first, other read status) and must print byte-identical XML and DOT. Sub-campaign datum-length-sweep (bounded-exhaustive): EVERY datum length 0..=9000 (thorough: 0..=40000) and ±24 around 64 KiB, 128 KiB, 256 KiB, 1 MiB on a two-vertex graph, both exports parsed back. Non-trivial: an absent id below the largest present id, a vertex with >=2 edges, and a datum.",
             assumptions: &["reference model for vertices/edges/data", "DOT line grammar as documented in src/dot.rs"],
-            subs: vec![Sub { id: "digraph", quick: 40_000, thorough: 2_400_000 }],
+            subs: vec![Sub { id: "digraph", quick: 40_000, thorough: 2_400_000 }, Sub { id: "datum-length-sweep", quick: 8, thorough: 16 }],
         },
         "C20" => Meta {
             level: "exploration",
@@ -207,6 +207,13 @@ pub fn run_sub(
         }
         ("C11", "treegen") => campaign(&TreeEngine { extras: false }, tier, seed, cases, known, inflight, 1500),
         ("C12", "treegen") => campaign(&TreeEngine { extras: true }, tier, seed, cases, known, inflight, 1500),
+        ("C08" | "C18", "datum-length-sweep") => {
+            let of = if tier == Tier::Quick { 8 } else { 16 };
+            let e = LengthSweep { prop: leak(prop), shard: worker, of, max: if tier == Tier::Quick { 9_000 } else { 40_000 } };
+            let mut r = campaign(&e, tier, seed, cases, known, inflight, 0);
+            r.exhaustive = r.found.is_empty();
+            r
+        }
         ("C13" | "C18" | "C20", "digraph") => campaign(&DiEngine { prop: leak(prop) }, tier, seed, cases, known, inflight, 1200),
         ("C14", "scriptgen") => campaign(&ScriptEngine, tier, seed, cases, known, inflight, 800),
         ("C15", "hexenum") => campaign(&HexEngine, tier, seed, cases, known, inflight, 50),
@@ -238,6 +245,7 @@ pub fn replay(prop: &str, engine: &str, payload: &Value) -> Result<Option<Failur
         ("C19", "multi-config") => Ok(MultiEngine.replay(payload)),
         ("C11", "treegen" | "treegen-enum") => Ok(TreeEngine { extras: false }.replay(payload)),
         ("C12", "treegen") => Ok(TreeEngine { extras: true }.replay(payload)),
+        ("C08" | "C18", "datum-length-sweep") => Ok(LengthSweep { prop: leak(prop), shard: 0, of: 1, max: 0 }.replay(payload)),
         ("C13" | "C18" | "C20", "digraph") => Ok(DiEngine { prop: leak(prop) }.replay(payload)),
         ("C14", "scriptgen") => Ok(ScriptEngine.replay(payload)),
         ("C15", "hexenum") => Ok(HexEngine.replay(payload)),
